@@ -187,6 +187,9 @@ func (t *Typedef) resolve(d *typeDictionary) []error {
 	if t.YangType != nil && t.resolveRun == run {
 		return nil
 	}
+	// Start from nothing, so that a typedef that does not resolve any more
+	// is left unresolved and not with what an earlier run made of it.
+	t.YangType = nil
 	defer func() { t.resolveRun = run }()
 	if t.resolving {
 		return []error{fmt.Errorf("%s: typedef %s has a circular definition", Source(t), t.Name)}
@@ -236,6 +239,9 @@ func (t *Type) resolve(d *typeDictionary) (errs []error) {
 	if t.YangType != nil && t.resolveRun == run {
 		return t.resolveErrs
 	}
+	// Start from nothing, so that a type that does not resolve any more is
+	// left unresolved and not with what an earlier run made of it.
+	t.YangType = nil
 	defer func() { t.resolveErrs, t.resolveRun = errs, run }()
 
 	// If t.Name is a base type then td will not be nil, otherwise
